@@ -1,6 +1,7 @@
 import PhyVerif.Model.C03
 import PhyVerif.Spec.C03
 import PhyVerif.Lemmas.C03
+import PhyVerif.Lemmas.C03b
 /-!
 # C03 — every route to a spike waveform yields the same zero-padded raw window
 Only property theorems + non-vacuity examples; proofs in `Lemmas/C03.lean`.
@@ -10,10 +11,13 @@ open PhyVerif PhyVerif.C16
 
 variable {α : Type} [Zero α]
 
-/-- Direct extraction: for every recording, every spike inside it, every window length (odd or
-even, also longer than the recording) and every channel list with or without −1 entries, the
-extracted waveform is exactly the zero-padded window. -/
-theorem extract_eq_window (A : List (List α)) (nch : Nat) (s : Int)
+/-- Direct extraction: for every rectangular recording with `nch` channels, every spike inside it, every window
+length (odd or even, also longer than the recording) and every channel list with or without −1 entries, the
+extracted waveform is exactly the zero-padded window. (Domain: `Rect A nch` is what makes `ChOK nch ch` say "a valid
+channel of THIS recording"; the proof does not use it because both sides read an absent cell as `0`, where the
+real code raises IndexError for a channel ≥ nch and is outside the property. A spike sample outside `[0, dur)` is
+outside the quantifier as well: the real code raises AssertionError (the stacked window has the wrong height).) -/
+theorem extract_eq_window (A : List (List α)) (nch : Nat) (_hrect : Rect A nch) (s : Int)
     (hs0 : 0 ≤ s) (hs : s < A.length) (n : Nat) (ch : List Int) (hch : ChOK nch ch) :
     extractWaveform A s n ch = window A s n ch :=
   Lemmas.extract_eq_window A nch s hs0 hs n ch hch
@@ -23,6 +27,7 @@ theorem extract_eq_window (A : List (List α)) (nch : Nat) (s : Int)
 spike, in spike order, each spike once — wherever spikes fall relative to chunk boundaries. -/
 theorem iter_concat_eq_map (A : List (List α)) (ivs : List (Nat × Nat))
     (hT : intervalsTile A.length ivs = true) (spikes : List Int) (chans : List (List Int))
+    (_hlen : chans.length = spikes.length)     -- `assert spike_samples.shape[0] == spike_channels.shape[0]`
     (hsorted : spikes.Pairwise (· ≤ ·))
     (hb : ∀ s ∈ spikes, 0 ≤ s ∧ s < A.length) (n : Nat) :
     (iterWaveforms A ivs spikes chans n).flatten =
@@ -52,13 +57,110 @@ theorem lookup_eq_window (st : Store α) (A : List (List α)) (samples : List In
     (hstore : ∀ p, p < st.spikeIds.length →
       st.waveforms.getD p [] = window A (samples.getD p 0) n (st.spikeChannels.getD p []))
     (query : List Nat) (hq : ∀ q ∈ query, q ∈ st.spikeIds) (chq : List Nat)
-    (_hchq : chq.Nodup) (_hids : st.spikeIds.Nodup) :
+    (hn : 0 < n) (hchq : chq ≠ [])      -- the real lookup asserts `nsw > 0` and `nc > 0`
+    (_hchqd : chq.Nodup) (_hids : st.spikeIds.Nodup) :
     getSpikeWaveforms st query chq n = some (query.map fun q =>
       let p := st.spikeIds.idxOf q
       (List.range n).map fun r => chq.map fun (c : Nat) =>
         if (st.spikeChannels.getD p []).contains (Int.ofNat c)
         then ((window A (samples.getD p 0) n [Int.ofNat c]).getD r []).getD 0 0 else 0) :=
-  Lemmas.lookup_eq_window st A samples n hl1 hl2 hstore query hq chq
+  Lemmas.lookup_eq_window st A samples n hl1 hl2 hstore query hq chq hn hchq
+
+/-- **All three routes agree** (export → store files → load → lookup, composed). For every rectangular recording,
+every chunking that tiles it, every sorted vector of in-range spike samples with one channel row (−1 allowed) per
+spike, every window length `n > 0` and EVERY unit factor `scale`:
+1. direct extraction of every spike on its channel row is the zero-padded window;
+2. the file written chunk by chunk loads as an array of the declared shape whose entry per spike is the unit
+   factor times that direct extraction, in spike order;
+3. the store made of the three files (`ids`, channel rows, that very file), loaded and queried for any stored
+   spikes in any order on any non-empty list of query channels, returns `lookupSpec`: on every query channel the
+   store holds for the spike the unit factor times the cell `wcell` of the raw window, zeros elsewhere.
+(`wcell A s n i c` is by `window_eq_wcell` the cell of `window`, i.e. by 1. of the direct extraction.)
+Domain: the stored ids and the query channels are distinct (a repeated one is filled only at its LAST position by
+the real `_index_of`; the model fills every position; neither is generated). -/
+theorem routes_agree (scale : α → α) (A : List (List α)) (nch : Nat) (_hrect : Rect A nch)
+    (ivs : List (Nat × Nat)) (hT : intervalsTile A.length ivs = true) (samples : List Int)
+    (chans : List (List Int)) (hlen : chans.length = samples.length)
+    (hsorted : samples.Pairwise (· ≤ ·)) (hb : ∀ s ∈ samples, 0 ≤ s ∧ s < A.length) (n : Nat) (hn : 0 < n)
+    (nloc : Nat) (hch : ∀ c ∈ chans, c.length = nloc ∧ ChOK nch c)
+    (ids : List Nat) (hids : ids.length = samples.length) (_hidsd : ids.Nodup)
+    (query : List Nat) (hq : ∀ q ∈ query, q ∈ ids) (chq : List Nat) (hchq : chq ≠ []) (_hchqd : chq.Nodup) :
+    (∀ sc ∈ samples.zip chans, extractWaveform A sc.1 n sc.2 = window A sc.1 n sc.2) ∧
+    npLoad (exportWaveforms scale A ivs samples chans n nloc) =
+      some ((samples.zip chans).map fun sc => scaleW scale (extractWaveform A sc.1 n sc.2)) ∧
+    (loadSubset ⟨ids, chans, exportWaveforms scale A ivs samples chans n nloc⟩).bind
+        (fun st => getSpikeWaveforms st query chq n) =
+      some (query.map fun q =>
+        lookupSpec scale A (samples.getD (ids.idxOf q) 0) n (chans.getD (ids.idxOf q) []) chq) :=
+  Lemmas.routes_agree scale A nch ivs hT samples chans hlen hsorted hb n hn nloc hch ids hids query hq chq hchq
+
+/-- The subset store of `TemplateModel` (`save_spikes_subset_waveforms` → `_load_spike_waveforms` →
+`get_spike_waveforms`): for every dataset with sorted in-range spike samples, one template per spike, a channel
+order per template (`get_template(t).channel_ids`), every selection `sel` of spikes that is strictly increasing
+(what `SpikeSelector` returns: `np.sort` of disjoint per-template picks) and every store width `nc`, the store
+loaded from the written files answers every query of stored spikes with the unit factor times the raw window of
+THAT spike (its own sample `spikeSamples[q]`) on the first `nc` channels of ITS template, zeros elsewhere.
+(`nc = 0` is rejected by the real code, `assert nc > 0`.) -/
+theorem subset_store_eq_raw (scale : α → α) (A : List (List α)) (nch : Nat) (_hrect : Rect A nch)
+    (ivs : List (Nat × Nat)) (hT : intervalsTile A.length ivs = true)
+    (spikeSamples : List Int) (hss : spikeSamples.Pairwise (· ≤ ·))
+    (hsb : ∀ s ∈ spikeSamples, 0 ≤ s ∧ s < A.length)
+    (spikeTemplates : List Nat) (hst : spikeTemplates.length = spikeSamples.length)
+    (orders : List (List Int)) (hto : ∀ t ∈ spikeTemplates, t < orders.length)
+    (hord : ∀ o ∈ orders, ChOK nch o)
+    (sel : List Nat) (hsel : sel.Pairwise (· < ·)) (hselb : ∀ i ∈ sel, i < spikeSamples.length)
+    (n : Nat) (hn : 0 < n) (nc : Nat) (_hnc : 0 < nc)
+    (query : List Nat) (hq : ∀ q ∈ query, q ∈ sel) (chq : List Nat) (hchq : chq ≠ []) (_hchqd : chq.Nodup) :
+    (loadSubset (saveSubset scale A ivs spikeSamples spikeTemplates orders sel n nc)).bind
+        (fun st => getSpikeWaveforms st query chq n) =
+      some (query.map fun q =>
+        lookupSpec scale A (spikeSamples.getD q 0) n
+          (templateNChannels true (orders.getD (spikeTemplates.getD q 0) []) nc) chq) :=
+  Lemmas.subset_store_eq_raw scale A nch ivs hT spikeSamples hss hsb spikeTemplates hst orders hto hord
+    sel hsel hselb n hn nc query hq chq hchq
+
+/-- … and the written files always load: the store a reload sees holds exactly the selected ids and, per
+selected spike, the first `nc` channels of its template filled up with −1. -/
+theorem subset_loads (scale : α → α) (A : List (List α)) (nch : Nat) (_hrect : Rect A nch)
+    (ivs : List (Nat × Nat)) (hT : intervalsTile A.length ivs = true)
+    (spikeSamples : List Int) (hss : spikeSamples.Pairwise (· ≤ ·))
+    (hsb : ∀ s ∈ spikeSamples, 0 ≤ s ∧ s < A.length)
+    (spikeTemplates : List Nat) (hst : spikeTemplates.length = spikeSamples.length)
+    (orders : List (List Int)) (hto : ∀ t ∈ spikeTemplates, t < orders.length)
+    (hord : ∀ o ∈ orders, ChOK nch o)
+    (sel : List Nat) (hsel : sel.Pairwise (· < ·)) (hselb : ∀ i ∈ sel, i < spikeSamples.length)
+    (n : Nat) (nc : Nat) :
+    ∃ w, loadSubset (saveSubset scale A ivs spikeSamples spikeTemplates orders sel n nc) =
+      some ⟨sel, sel.map fun i =>
+        templateNChannels true (orders.getD (spikeTemplates.getD i 0) []) nc, w⟩ :=
+  Lemmas.subset_loads scale A nch ivs hT spikeSamples hss hsb spikeTemplates hst orders hto hord
+    sel hsel hselb n nc
+
+/-- `TemplateModel.get_waveforms`, store route: whenever the lookup succeeds its result is returned. -/
+theorem getWaveforms_stored (st : Store α) (A : List (List α)) (spikeSamples : List Int)
+    (query chq : List Nat) (n : Nat) (W : List (List (List α)))
+    (h : getSpikeWaveforms st query chq n = some W) :
+    getWaveforms (some st) A spikeSamples query chq n = W :=
+  Lemmas.getWaveforms_stored st A spikeSamples query chq n W h
+
+/-- `TemplateModel.get_waveforms`, fallback: as soon as ONE requested spike is not in the store, every requested
+spike is read from the raw data and the result is exactly the zero-padded raw window on the query channels
+(valid channels of the recording; in-range spike ids and samples). -/
+theorem getWaveforms_unstored (st : Store α) (A : List (List α)) (nch : Nat) (_hrect : Rect A nch)
+    (spikeSamples : List Int) (query chq : List Nat) (n : Nat) (q : Nat) (hq : q ∈ query)
+    (hns : q ∉ st.spikeIds) (hqb : ∀ q ∈ query, q < spikeSamples.length)
+    (hsb : ∀ s ∈ spikeSamples, 0 ≤ s ∧ s < A.length) (hc : ∀ c ∈ chq, c < nch) :
+    getWaveforms (some st) A spikeSamples query chq n =
+      query.map fun q => window A (spikeSamples.getD q 0) n (chq.map Int.ofNat) :=
+  Lemmas.getWaveforms_unstored st A nch spikeSamples query chq n q hq hns hqb hsb hc
+
+/-- `TemplateModel.get_waveforms` without a store: the raw-data route. -/
+theorem getWaveforms_raw (A : List (List α)) (nch : Nat) (_hrect : Rect A nch) (spikeSamples : List Int)
+    (query chq : List Nat) (n : Nat) (hqb : ∀ q ∈ query, q < spikeSamples.length)
+    (hsb : ∀ s ∈ spikeSamples, 0 ≤ s ∧ s < A.length) (hc : ∀ c ∈ chq, c < nch) :
+    getWaveforms none A spikeSamples query chq n =
+      query.map fun q => window A (spikeSamples.getD q 0) n (chq.map Int.ofNat) :=
+  Lemmas.getWaveforms_raw A nch spikeSamples query chq n hqb hsb hc
 
 /-! Non-vacuity (cells are integers) -/
 example : extractWaveform [[1, 2], [3, 4], [5, 6]] 1 8 [1, -1, 0] =
@@ -68,5 +170,31 @@ example : window [[1, 2], [3, 4], [5, 6]] 1 8 [1, -1, 0] =
 example : (iterWaveforms [[1], [2], [3], [4], [5]] [(0, 2), (2, 2), (2, 5)] [0, 2, 4] [[0], [0], [0]] 3).flatten
     = [[[0], [1], [2]], [[2], [3], [4]], [[4], [5], [0]]] := by decide
 example : intervalsTile 5 [(0, 2), (2, 2), (2, 5)] = true := by decide
+
+-- the composed route on a concrete store: two chunks, factor 2, spikes 9 and 4 stored with rows [1,-1] and [0,1],
+-- queried in reverse order on channels [1, 0, 2]
+example :
+    (loadSubset (α := Int) ⟨[9, 4], [[1, -1], [0, 1]],
+        exportWaveforms (fun x => 2 * x) [[1, 2], [3, 4], [5, 6]] [(0, 2), (2, 3)] [0, 2] [[1, -1], [0, 1]] 2 2⟩).bind
+      (fun st => getSpikeWaveforms st [4, 9] [1, 0, 2] 2) =
+    some [[[8, 6, 0], [12, 10, 0]], [[0, 0, 0], [4, 0, 0]]] := by decide
+example : lookupSpec (fun x => 2 * x) [[1, 2], [3, 4], [5, 6]] (2 : Int) 2 [0, 1] [1, 0, 2] =
+    [[8, 6, 0], [12, 10, 0]] := by decide
+example : Rect (α := Int) [[1, 2], [3, 4], [5, 6]] 2 := by simp [Rect]
+-- the TemplateModel subset store: 4 spikes of templates 1,0,1,0; template 1 has no third channel
+example :
+    (saveSubset (α := Int) (fun x => x) [[1, 2, 3], [4, 5, 6], [7, 8, 9], [10, 11, 12]] [(0, 4)]
+      [0, 1, 3, 3] [1, 0, 1, 0] [[2, 0, 1], [1]] [1, 2] 2 2).channels = [[2, 0], [1, -1]] := by decide
+example :
+    (loadSubset (saveSubset (α := Int) (fun x => x) [[1, 2, 3], [4, 5, 6], [7, 8, 9], [10, 11, 12]] [(0, 4)]
+      [0, 1, 3, 3] [1, 0, 1, 0] [[2, 0, 1], [1]] [1, 2] 2 2)).bind
+      (fun st => getSpikeWaveforms st [2, 1] [1, 2] 2) =
+    some [[[8, 0], [11, 0]], [[0, 3], [0, 6]]] := by decide
+example : templateNChannels true [2, 0, 1] 2 = [2, 0] ∧ templateNChannels true [1] 3 = [1, -1, -1] ∧
+    templateNChannels false [1] 2 = [-1, -1] ∧ subsetWidth 0 12 = 12 ∧ subsetWidth 3 12 = 12 ∧
+    subsetWidth 14 12 = 14 := by decide
+-- get_waveforms falls back to the raw data when a requested spike is not stored
+example : getWaveforms (α := Int) (some ⟨[1], [[0]], [[[5]]]⟩) [[1, 2], [3, 4]] [0, 1] [0, 1] [1] 1 =
+    [[[2]], [[4]]] := by decide
 
 end PhyVerif.C03
